@@ -142,7 +142,11 @@ func (s *Sink) addCommon(c Case, b []byte, keytext, text string, nontrivial bool
 	if vb != nil {
 		vb.cur = append(vb.cur, text)
 		vb.curIdx = append(vb.curIdx, idx)
-		if len(vb.cur) >= s.perFile {
+		limit := s.perFile
+		if vb.checker == "check_enum_quick" || vb.checker == "check_enum_thorough" {
+			limit = 1 // one enumeration block per shard
+		}
+		if len(vb.cur) >= limit {
 			s.flushBuf(vb.checker, vb.caseType, vb.cur, vb.curIdx)
 			vb.cur, vb.curIdx = nil, nil
 		}
